@@ -86,6 +86,36 @@ class Attenuated(Job):
         S.min_period = V.int("min_period", 0, (n + 1) * (self.step or 1)) if self.minmode == "period" else None
         return S
 
+    def offgrid_transforms(self):
+        """whole-series spread of data carrying a large common offset (2^40; grid values stay exact in binary64): the spread is
+        translation invariant.  Probed only where the exact spread is >= 1 and at least 2 % away from both thresholds: the
+        unchanged two-pass np.std / np.ptp lose at most ~2^-12 absolute in the mean there, i.e. well under 0.1 % of the spread."""
+        if self.period or self.check not in ("std", "range", "default"):
+            return []
+        from fractions import Fraction
+        OFF = float(2 ** 40)
+
+        def shift(Sc):
+            out = Struct(**vars(Sc))
+            out.x = [v if v != v else v + OFF for v in Sc.x]
+            return out
+
+        def safe(Sc):
+            vals = [Fraction(v) for v in Sc.x if v == v]
+            if len(vals) < 2:
+                return False
+            if self.check == "range":
+                spread2 = (max(vals) - min(vals)) ** 2
+            else:
+                mean = sum(vals) / len(vals)
+                spread2 = sum((v - mean) ** 2 for v in vals) / len(vals)
+            for t in (Sc.st, Sc.ft):
+                t2 = Fraction(t) ** 2
+                if abs(spread2 - t2) * 50 < max(spread2, t2):
+                    return False
+            return spread2 >= 1
+        return [("data offset by 2^40", shift, safe)]
+
     def invoke(self, mods, S, K):
         kw = {"suspect_threshold": S.st, "fail_threshold": S.ft}
         if self.check != "default":
